@@ -67,6 +67,8 @@ pub mod dummy;
 pub mod handler;
 mod listen_opts;
 mod translation;
+#[cfg(libp2p_verif)]
+pub mod verif;
 
 /// Bundles all symbols required for the [`libp2p_swarm_derive::NetworkBehaviour`] macro.
 #[doc(hidden)]
